@@ -3,11 +3,13 @@ from vlib import core, design, elab, wf
 from vlib.world import World, snapshot
 
 
-def prepare(case):
+def prepare(case, policy=None):
     desc, order = case[0], case[1]
     desc = (desc[0], tuple(desc[1]), desc[2])
     core.reset_world()
     core.set_order(order)
+    if policy is not None:
+        core.sdn().namespace_manager.default = policy
     ad = design.materialize(desc)
     # leaf instances carry a property so that "same data" is observable
     for lib in ad["libs"]:
